@@ -556,8 +556,14 @@ func newSrcMode(o *opts) *srcMode {
 				m.trunc = append(m.trunc, p[:i])
 			}
 		}
+		for _, v := range tokenVariants(p) { // every single token deleted / doubled
+			if !seenT[v] {
+				seenT[v] = true
+				m.trunc = append(m.trunc, v)
+			}
+		}
 	}
-	m.nRand = 500 + 900 // incl. the truncations of truncPrograms (the first indices of the block)
+	m.nRand = 500 + 2400 // incl. the truncations of truncPrograms (the first indices of the block)
 	if o.tier == "thorough" {
 		m.allOpt = true
 		m.nRand = 12000
@@ -627,7 +633,7 @@ func (m *srcMode) decode(i int64) srcCase {
 	j := i - m.nNest
 	if j < int64(len(m.trunc)) {
 		t := m.trunc[j]
-		return srcCase{Cat: "trunc", Recipe: fmt.Sprintf("a valid program truncated after %d bytes", len(t)), Opts: int((j*29 + 1) % 64), Src: t}
+		return srcCase{Cat: "trunc", Recipe: fmt.Sprintf("a lexically dense valid program truncated, or with one token deleted / doubled (%d bytes)", len(t)), Opts: int((j*29 + 1) % 64), Src: t}
 	}
 	r := hx.NewRand(m.o.seed*104729 + uint64(j)).Split()
 	op := r.Intn(64)
